@@ -1,5 +1,52 @@
-(* Proofs/LinkWrapRel.v -- property C15 for the options `no_link_wrapping` and `min_wrap_width`.
-   (header comment completed at the end of the file: see SUMMARY) *)
+(* Proofs/LinkWrapRel.v -- property C15 ("each layout option has exactly its documented effect;
+   options that do not apply to a document leave its output unchanged") for the options
+   `no_link_wrapping` (Config::no_link_wrapping, ropts field o_wrap_links) and `min_wrap_width`
+   (the min_wrap argument of est_node / render_node / render_tree).  For all inputs, no axioms
+   (every main theorem is followed by Print Assumptions), no hypothesis on decorator or width.
+
+   PART A -- no_link_wrapping.   nowl o = o with o_wrap_links := false;  rw s = the sub-renderer s
+   with nowl applied to its stored options  (same_but_links o1 o2 /\ o_wrap_links o2 = false
+   -> o2 = nowl o1: same_but_links_eq).
+   A1  nlw_render_node: render_node never reads o_wrap_links.  Obtained from Compose.node_sim_all
+       with the relation RW a b := b = rw a; every sub-renderer operation COMMUTES with rw
+       (`comm f : f (rw s) = rmap (f s)`, RW_ops).  Two runs from states whose top sub-renderers
+       differ only in that option have the same outcome kind (the same Panic site) and end in
+       states with the same links and tops again related by rw.
+   A2  fmt_links_wrap_rel: what fmt_links appends for the same entries with and without wrapping:
+       one line per entry without (the entry itself, line feeds of the target shown as spaces);
+       with wrapping every entry is cut into >= 1 consecutive lines whose strings concatenate to
+       the entry (Footnotes.entry_groups); every character of both carries the tag [ADefault]
+       (pairs_ok: the (character, tag) pairs of the line); with wrapping on every line is at
+       most swidth_ s wide, or is ONE single character wider than that (width_ok; the recorded
+       finding C02 footnote_wide_char, example lw_wide_char); length new2 <= length new1.
+       (fl_chars_pieces / fl_strings_pieces / fmt_links_pieces carry the invariant `finv`.)
+   A3  nlw_render_tree:  res_rel (nlw_rel ..) (render_tree d mw o width tree)
+                                             (render_tree d mw (nowl o) width tree)
+       nlw_rel: no footnote list (footnotes off or no visited link) -> s2 = rw s1; otherwise the
+       lines of both results are the lines of the SAME body followed by new1 / new2 as in A2 with
+       entries finalise_from 1 (link_targets ..) ("[k]: " ++ target k:
+       Footnotes.render_tree_footnote_entry).
+       In the checker's words: nlw_lines (lines_rel: the same strings and the same per-character
+       tags with the line breaks removed, length ls2 <= length ls1, ls1 = ls2 when there is no
+       list), nlw_string (string_rel: strip_nl t1 = strip_nl t2 ...), and through Api.v
+       nlw_lines_from_read, nlw_string_from_read, nlw_routes_unchanged (doc_no_list: footnotes
+       off, or the document's render tree has no link -> the very same result).
+
+   PART B -- min_wrap_width.  mw is read only by Render.text_est (e_min = min len mw); the
+   estimates reach the renderer through (a) width_minus's minimum in the five prefixed blocks
+   (heading, block quote, ul, ol, dd) and (b) the table layout.
+   B1  minwrap_flat: flat tree = true (no prefixed block, no table: paragraphs, divs, <pre>, dl/dt,
+       inline markup) -> render_tree d mw1 o width tree = render_tree d mw2 o width tree
+       (the same outcome, failures included; overflow allowed or not).
+   B2  minwrap_both_ok: Footnotes.no_table tree = true, o_allow_overflow o = false,
+       render_tree d mw1 .. = Ok s1, render_tree d mw2 .. = Ok s2  ->  s1 = s2.
+       (direct two-run induction; without overflow width_minus answers swidth - prefix whatever
+       the minimum is: wm_indep.)  Both hypotheses and "both succeed" are needed:
+       mw_one_side_too_narrow, mw_overflow_differs, mw_table_differs.
+       So: NO two successful overflow-free table-free renders differ with mw alone.
+   Routes: minwrap_routes_flat, minwrap_routes_both_ok (Config::min_wrap_width = set_min_wrap).
+
+   Examples (non-vacuity): section C. *)
 From H2T Require Import Base Tagged Wrap Sub Css Dom Render Api.
 From H2T Require Import Proofs.WrapInv Proofs.Small Proofs.RenderWidth Proofs.Compose.
 From H2T Require Proofs.TableProof Proofs.Footnotes.
@@ -1085,7 +1132,7 @@ Section MinWrap2.
     a = b /\ ovoff a.
   Proof.
     intros HF Hn st a b Ho H1 H2.
-    apply (fold2_eq ovoff (render_node d mw1) (render_node d mw2) cs) with (a := st); auto.
+    refine (fold2_eq ovoff (render_node d mw1) (render_node d mw2) cs _ st a b Ho H1 H2).
     intros c Hc x x1 x2 Hx E1 E2. rewrite Forall_forall in HF. rewrite forallb_forall in Hn.
     split; [exact (HF c Hc (Hn c Hc) x x1 x2 Hx E1 E2)|exact (ovoff_node _ _ _ _ _ Hx E1)].
   Qed.
@@ -1137,21 +1184,16 @@ Section MinWrap2.
       destruct (kidsQ cs IH Hn x y1 y2 Hox Y1 Y2) as [<- _].
       sync H1 H2 z Hz. sync H1 H2 tp Htp. sync H1 H2 u Hu. fin H1 H2.
     - (* IEm *)
-      eapply (wrapQ (start_emphasis d) (end_emphasis d)); try eassumption.
-      apply (Footnotes.start_deco_sames d).
+      exact (wrapQ (start_emphasis d) (end_emphasis d) cs ps st1 a b (Footnotes.start_deco_sames d (d_em_start d)) IH Hn Ho1 H1 H2).
     - (* IStrong *)
-      eapply (wrapQ (start_strong d) (end_strong d)); try eassumption.
-      apply (Footnotes.start_deco_sames d).
+      exact (wrapQ (start_strong d) (end_strong d) cs ps st1 a b (Footnotes.start_deco_sames d (d_strong_start d)) IH Hn Ho1 H1 H2).
     - (* IStrikeout *)
-      eapply (wrapQ (start_strikeout d) (end_strikeout d)); try eassumption.
-      apply Footnotes.start_strikeout_sames.
+      exact (wrapQ (start_strikeout d) (end_strikeout d) cs ps st1 a b (Footnotes.start_strikeout_sames d) IH Hn Ho1 H1 H2).
     - (* ICode *)
-      eapply (wrapQ (start_code d) (end_code d)); try eassumption.
-      apply (Footnotes.start_deco_sames d).
+      exact (wrapQ (start_code d) (end_code d) cs ps st1 a b (Footnotes.start_deco_sames d (d_code_start d)) IH Hn Ho1 H1 H2).
     - (* IImg *) sync H1 H2 x Hx. fin H1 H2.
     - (* IBlock *)
-      eapply (wrapQ start_block (fun s => Ok (end_block s))); try eassumption.
-      apply Footnotes.start_block_sames.
+      exact (wrapQ start_block (fun s => Ok (end_block s)) cs ps st1 a b Footnotes.start_block_sames IH Hn Ho1 H1 H2).
     - (* IHeader *)
       destruct (swidth (d_header_prefix d level) =? e_prefix sz1) eqn:P1; cbn [negb] in H1; [|discriminate].
       destruct (swidth (d_header_prefix d level) =? e_prefix sz2) eqn:P2; cbn [negb] in H2; [|discriminate].
@@ -1164,7 +1206,7 @@ Section MinWrap2.
       sync H1 H2 pp Hpp. destruct pp as [sub st3].
       sync H1 H2 st4 H4. sync H1 H2 st5 H5. sync H1 H2 st6 H6. fin H1 H2.
     - (* IDiv *)
-      eapply (wrapQ new_line new_line); try eassumption. apply Footnotes.flush_wrapping_sames.
+      exact (wrapQ new_line new_line cs ps st1 a b Footnotes.flush_wrapping_sames IH Hn Ho1 H1 H2).
     - (* IBlockQuote *)
       destruct (e_prefix sz1 =? swidth (d_quote_prefix d)); cbn [negb] in H1; [|discriminate].
       destruct (e_prefix sz2 =? swidth (d_quote_prefix d)); cbn [negb] in H2; [|discriminate].
@@ -1193,9 +1235,9 @@ Section MinWrap2.
       split; [fin E1 E2|].
       eapply with_top_ov; [apply Footnotes.append_subrender_sames|exact Ho3|exact E1].
     - (* IOl *)
-      bind_inv H1 r1 R1. bind_inv H2 r2 R2.
+      bind_inv H1 r1 Rb1. bind_inv H2 r2 Rb2.
       enough (E : r1 = r2 /\ ovoff (fst r1)) by (destruct E as [<- _]; fin H1 H2).
-      revert R1 R2.
+      revert Rb1 Rb2.
       apply (fold2_eq (fun si : rstate * Z => ovoff (fst si))); [|exact Ho1].
       intros item Hitem [x i] [x1 i1] [x2 i2] Hx E1 E2. cbn [fst] in Hx |- *.
       bind_inv E1 iw1 I1. bind_inv E2 iw2 I2.
@@ -1217,8 +1259,7 @@ Section MinWrap2.
     - (* IDt *)
       sync H1 H2 x Hx.
       pose proof (with_top_ov _ _ _ Footnotes.flush_wrapping_sames Ho1 Hx) as Hox.
-      eapply (wrapQ (start_emphasis d) (end_emphasis d)); try eassumption.
-      apply (Footnotes.start_deco_sames d).
+      exact (wrapQ (start_emphasis d) (end_emphasis d) cs ps x a b (Footnotes.start_deco_sames d (d_em_start d)) IH Hn Hox H1 H2).
     - (* IDd *)
       bind_inv H1 iw1 I1. bind_inv H2 iw2 I2.
       sync H1 H2 tp Htp. bind_inv H1 w1 W1. bind_inv H2 w2 W2.
@@ -1231,13 +1272,11 @@ Section MinWrap2.
     - (* IBreak *) sync H1 H2 x Hx. fin H1 H2.
     - (* IFragStart *) sync H1 H2 x Hx. fin H1 H2.
     - (* IListItem *)
-      eapply (wrapQ start_block (fun s => Ok (end_block s))); try eassumption.
-      apply Footnotes.start_block_sames.
+      exact (wrapQ start_block (fun s => Ok (end_block s)) cs ps st1 a b Footnotes.start_block_sames IH Hn Ho1 H1 H2).
     - (* ISup *)
       destruct (sup_digits cs) as [ds|].
       + sync H1 H2 x Hx. fin H1 H2.
-      + eapply (wrapQ (start_superscript d) (end_superscript d)); try eassumption.
-        apply (Footnotes.start_deco_sames d).
+      + exact (wrapQ (start_superscript d) (end_superscript d) cs ps st1 a b (Footnotes.start_deco_sames d (d_sup_start d)) IH Hn Ho1 H1 H2).
   Qed.
 
   (* THEOREM B2.  A tree without tables (prefixed blocks allowed, nested in any way), rendered
@@ -1257,3 +1296,206 @@ Section MinWrap2.
   Qed.
 End MinWrap2.
 Print Assumptions minwrap_both_ok.
+
+(* ---- through the public routes: Config::min_wrap_width ---- *)
+Section RoutesMinWrap.
+  Variable inl : list (text * text) -> res (list styledecl).
+  Variable dr : list node -> res (list ruleset).
+
+  (* the option does not apply: no prefixed block, no table in the document's render tree *)
+  Theorem minwrap_routes_flat c doc w m :
+    (forall tree, to_render_tree inl dr c doc = Ok tree -> flat tree = true) ->
+    lines_from_read inl dr (set_min_wrap c m) doc w = lines_from_read inl dr c doc w /\
+    string_from_read inl dr (set_min_wrap c m) doc w = string_from_read inl dr c doc w.
+  Proof.
+    intros Hf. unfold lines_from_read, string_from_read.
+    change (to_render_tree inl dr (set_min_wrap c m) doc) with (to_render_tree inl dr c doc).
+    destruct (to_render_tree inl dr c doc) as [tree| | |] eqn:Et; cbn [bind]; [|auto..].
+    unfold render_with_context. cbn [c_deco c_min_wrap set_min_wrap].
+    change (render_options (set_min_wrap c m)) with (render_options c).
+    destruct (w =? 0); [auto|].
+    rewrite (minwrap_flat (c_deco c) m (c_min_wrap c) (render_options c) w tree (Hf tree eq_refl)). auto.
+  Qed.
+
+  (* table-free document, overflow not allowed: if both succeed the results are equal *)
+  Theorem minwrap_routes_both_ok c doc w m :
+    (forall tree, to_render_tree inl dr c doc = Ok tree -> Footnotes.no_table tree = true) ->
+    c_overflow c = false ->
+    (forall r1 r2, lines_from_read inl dr (set_min_wrap c m) doc w = Ok r1 ->
+                   lines_from_read inl dr c doc w = Ok r2 -> r1 = r2) /\
+    (forall r1 r2, string_from_read inl dr (set_min_wrap c m) doc w = Ok r1 ->
+                   string_from_read inl dr c doc w = Ok r2 -> r1 = r2).
+  Proof.
+    intros Hn Hov. unfold lines_from_read, string_from_read.
+    change (to_render_tree inl dr (set_min_wrap c m) doc) with (to_render_tree inl dr c doc).
+    destruct (to_render_tree inl dr c doc) as [tree| | |] eqn:Et; cbn [bind];
+      [|split; intros; discriminate..].
+    unfold render_with_context. cbn [c_deco c_min_wrap set_min_wrap].
+    change (render_options (set_min_wrap c m)) with (render_options c).
+    destruct (w =? 0); [split; intros; discriminate|].
+    split; intros r1 r2 H1 H2; bind_inv H1 s1 S1; bind_inv H2 s2 S2;
+      pose proof (minwrap_both_ok (c_deco c) m (c_min_wrap c) (render_options c) w tree s1 s2
+                    (Hn tree eq_refl) Hov S1 S2) as <-; rewrite H1 in H2; injection H2 as H2; exact H2.
+  Qed.
+End RoutesMinWrap.
+Print Assumptions minwrap_routes_flat.
+Print Assumptions minwrap_routes_both_ok.
+
+(* ================================================================== *)
+(* C.  Examples (non-vacuity) and counterexamples                       *)
+(* ================================================================== *)
+Definition lw_opts : ropts := Footnotes.fn_opts.      (* plain decorator, footnotes, link wrapping *)
+Definition lw_tx (l : list N) : rnode := ex_n (IText (ex_str l)).
+(* http://ex.com/a/b *)
+Definition lw_long : text := ex_str [104;116;116;112;58;47;47;101;120;46;99;111;109;47;97;47;98].
+(* <p>a <a href="http://ex.com/a/b">p</a></p> *)
+Definition lw_tree : rnode := ex_n (IBlock [lw_tx [97;32]; ex_n (ILink lw_long [lw_tx [112]])]).
+
+(* A: the footnote entry "[1]: http://ex.com/a/b" at width 10: three pieces with wrapping, one
+   line without; same_but_links holds for the two option sets *)
+Example lw_outputs :
+  o_wrap_links lw_opts = true /\ same_but_links lw_opts (nowl lw_opts) /\
+  Footnotes.fn_out (render_tree plain_deco 3 lw_opts 10 lw_tree) =
+  Ok [[97; 32; 91; 112; 93; 91; 49; 93]; [];
+      [91; 49; 93; 58; 32; 104; 116; 116; 112; 58];
+      [47; 47; 101; 120; 46; 99; 111; 109; 47; 97]; [47; 98]] /\
+  Footnotes.fn_out (render_tree plain_deco 3 (nowl lw_opts) 10 lw_tree) =
+  Ok [[97; 32; 91; 112; 93; 91; 49; 93]; [];
+      [91; 49; 93; 58; 32; 104; 116; 116; 112; 58; 47; 47; 101; 120; 46; 99; 111; 109; 47; 97; 47; 98]].
+Proof.
+  split; [reflexivity|]. split; [apply nowl_same|]. split; vm_compute; reflexivity.
+Qed.
+
+(* the theorem applied to it: both renders are Ok, 5 and 3 lines, related by lines_rel *)
+Example lw_applies :
+  exists ls1 ls2,
+    (do s <- render_tree plain_deco 3 lw_opts 10 lw_tree; sub_into_lines s) = Ok ls1 /\
+    (do s <- render_tree plain_deco 3 (nowl lw_opts) 10 lw_tree; sub_into_lines s) = Ok ls2 /\
+    length ls1 = 5%nat /\ length ls2 = 3%nat /\ lines_rel ls1 ls2.
+Proof.
+  pose proof (nlw_lines plain_deco 3 lw_opts 10 lw_tree) as H.
+  assert (E1 : exists ls1, (do s <- render_tree plain_deco 3 lw_opts 10 lw_tree; sub_into_lines s)
+                           = Ok ls1 /\ length ls1 = 5%nat)
+    by (vm_compute; eexists; split; reflexivity).
+  assert (E2 : exists ls2, (do s <- render_tree plain_deco 3 (nowl lw_opts) 10 lw_tree; sub_into_lines s)
+                           = Ok ls2 /\ length ls2 = 3%nat)
+    by (vm_compute; eexists; split; reflexivity).
+  destruct E1 as (ls1 & E1 & L1). destruct E2 as (ls2 & E2 & L2).
+  rewrite E1, E2 in H. cbn [res_rel] in H. exists ls1, ls2. intuition.
+Qed.
+
+(* the recorded finding C02 footnote_wide_char: at width 1 a target character of width 2 gets a
+   line of its own, wider than the renderer (width_ok's second alternative); the text is still
+   conserved *)
+Definition lw_wide : text := [mkchr 23383 (Some 2) false 16].
+Definition lw_tree_wide : rnode := ex_n (IBlock [ex_n (ILink lw_wide [lw_tx [112]])]).
+Example lw_wide_char :
+  Footnotes.fn_out (render_tree plain_deco 3 lw_opts 1 lw_tree_wide) =
+  Ok [[91]; [112]; [93]; [91]; [49]; [93]; []; [91]; [49]; [93]; [58]; [32]; [23383]] /\
+  Footnotes.fn_out (render_tree plain_deco 3 (nowl lw_opts) 1 lw_tree_wide) =
+  Ok [[91]; [112]; [93]; [91]; [49]; [93]; []; [91; 49; 93; 58; 32; 23383]].
+Proof. split; vm_compute; reflexivity. Qed.
+
+(* a link-free document: unchanged (no_list holds) *)
+Example lw_no_link :
+  no_list plain_deco 3 lw_opts 10 (ex_n (IBlock [lw_tx [97;32;98]])) /\
+  render_tree plain_deco 3 (nowl lw_opts) 10 (ex_n (IBlock [lw_tx [97;32;98]])) =
+  (do s <- render_tree plain_deco 3 lw_opts 10 (ex_n (IBlock [lw_tx [97;32;98]])); Ok (rw s)).
+Proof. split; [apply no_list_no_link; reflexivity|vm_compute; reflexivity]. Qed.
+
+(* B *)
+Definition mw_pre : cstyle :=
+  mkcs (mkcore ws_default ws_default ws_default (maybe_update ws_default false OAgent spec0 WsPre)
+               ws_default) None None true.
+Definition mw_o : ropts := render_options (with_decorator plain_deco).
+Definition mw_oo : ropts := render_options (set_overflow (with_decorator plain_deco)).
+(* <p>hello <em>wide</em> world</p><div>ab cd</div><pre>p  q</pre> *)
+Definition mw_flat : rnode :=
+  ex_n (IContainer
+   [ex_n (IBlock [lw_tx [104;101;108;108;111;32]; ex_n (IEm [lw_tx [119;105;100;101]]);
+                  lw_tx [32;119;111;114;108;100]]);
+    ex_n (IDiv [lw_tx [97;98;32;99;100]]);
+    RN (IBlock [lw_tx [112;32;32;113]]) mw_pre]).
+Example mw_flat_applies :
+  flat mw_flat = true /\
+  Footnotes.fn_out (render_tree plain_deco 1 mw_o 7 mw_flat) =
+  Ok [[104; 101; 108; 108; 111]; [119; 105; 100; 101]; [119; 111; 114; 108; 100]; [];
+      [97; 98; 32; 99; 100]; []; [112; 32; 32; 113]] /\
+  render_tree plain_deco 30 mw_o 7 mw_flat = render_tree plain_deco 1 mw_o 7 mw_flat.
+Proof.
+  split; [reflexivity|]. split; [vm_compute; reflexivity|]. apply minwrap_flat. reflexivity.
+Qed.
+
+(* <blockquote>ab c d</blockquote><ul><li>x y</li></ul><ol><li>k</li></ol>
+   <dl><dt>t</dt><dd>dd e</dd></dl><h2>hh</h2>  at width 6, min_wrap 1 and 3: both Ok, equal *)
+Definition mw_pref : rnode :=
+  ex_n (IContainer
+   [ex_n (IBlockQuote [lw_tx [97;98;32;99;32;100]]);
+    ex_n (IUl [ex_n (IListItem [lw_tx [120;32;121]])]);
+    ex_n (IOl 1 [ex_n (IListItem [lw_tx [107]])]);
+    ex_n (IDl [ex_n (IDt [lw_tx [116]]); ex_n (IDd [lw_tx [100;100;32;101]])]);
+    ex_n (IHeader 2 [lw_tx [104;104]])]).
+Example mw_pref_applies :
+  Footnotes.no_table mw_pref = true /\ o_allow_overflow mw_o = false /\
+  Footnotes.fn_out (render_tree plain_deco 1 mw_o 6 mw_pref) =
+  Ok [[62; 32; 97; 98; 32; 99]; [62; 32; 100]; [42; 32; 120; 32; 121]; [49; 46; 32; 107]; [];
+      [116]; [32; 32; 100; 100; 32; 101]; []; [35; 35; 32; 104; 104]] /\
+  (forall s1 s2, render_tree plain_deco 1 mw_o 6 mw_pref = Ok s1 ->
+                 render_tree plain_deco 3 mw_o 6 mw_pref = Ok s2 -> s1 = s2) /\
+  (exists s2, render_tree plain_deco 3 mw_o 6 mw_pref = Ok s2).
+Proof.
+  split; [reflexivity|]. split; [reflexivity|]. split; [vm_compute; reflexivity|]. split.
+  - intros s1 s2. apply minwrap_both_ok; reflexivity.
+  - vm_compute. eexists. reflexivity.
+Qed.
+
+(* "both succeed" is needed: a larger min_wrap_width makes <ul><li>a b</li></ul> TooNarrow at
+   width 4 (the documented effect of the option, finding short_split_min_width in DomSplit) *)
+Definition mw_ul : rnode := ex_n (IUl [ex_n (IListItem [lw_tx [97;32;98]])]).
+Example mw_one_side_too_narrow :
+  Footnotes.fn_out (render_tree plain_deco 3 mw_o 4 mw_ul) = TooNarrow /\
+  Footnotes.fn_out (render_tree plain_deco 1 mw_o 4 mw_ul) = Ok [[42; 32; 97]; [32; 32; 98]].
+Proof. split; vm_compute; reflexivity. Qed.
+
+(* `o_allow_overflow o = false` is needed: with overflow allowed two SUCCESSFUL table-free
+   renderings differ with min_wrap alone (<blockquote>a b</blockquote> at width 3: the inner
+   renderer is max (3 - 2) (estimated minimum) wide) *)
+Definition mw_q : rnode := ex_n (IBlockQuote [lw_tx [97;32;98]]).
+Example mw_overflow_differs :
+  Footnotes.no_table mw_q = true /\
+  Footnotes.fn_out (render_tree plain_deco 3 mw_oo 3 mw_q) = Ok [[62; 32; 97; 32; 98]] /\
+  Footnotes.fn_out (render_tree plain_deco 1 mw_oo 3 mw_q) = Ok [[62; 32; 97]; [62; 32; 98]].
+Proof. split; [reflexivity|]. split; vm_compute; reflexivity. Qed.
+
+(* tables are excluded for a reason: the estimated minima decide the column widths *)
+Definition mw_cell (l : list N) : rcell := RCell 1 [lw_tx l] cstyle0.
+Definition mw_tab : rnode :=
+  ex_n (ITable [RRow [mw_cell [97;97;97;97;32;98;98;98;98;32;99;99;99;99;32;100;100;100;100;32;
+                                101;101;101;101;32;102;102;102;102];
+                      mw_cell [120;121;122]] cstyle0] 2).
+Example mw_table_differs :
+  (do ls <- Footnotes.fn_out (render_tree plain_deco 3 mw_o 10 mw_tab); Ok (nth 1 ls [])) =
+  Ok [97; 97; 97; 97; 32; 32; 9474; 120; 121; 122] /\
+  (do ls <- Footnotes.fn_out (render_tree plain_deco 1 mw_o 10 mw_tab); Ok (nth 1 ls [])) =
+  Ok [97; 97; 97; 97; 32; 32; 32; 32; 9474; 120].
+Proof. split; vm_compute; reflexivity. Qed.
+
+(* ================================================================== *)
+(* SUMMARY                                                              *)
+(* ==================================================================
+   PART A (no_link_wrapping), no hypotheses:
+     nlw_render_node     render_node commutes with switching o_wrap_links off (body untouched)
+     fmt_links_wrap_rel  the footnote list with / without wrapping (pieces, tags, widths, counts)
+     nlw_render_tree     res_rel nlw_rel (render_tree .. o ..) (render_tree .. (nowl o) ..)
+     nlw_lines, nlw_string, nlw_lines_from_read, nlw_string_from_read, nlw_routes_unchanged
+   PART B (min_wrap_width):
+     minwrap_flat        flat tree -> the same result for all mw1 mw2
+     minwrap_both_ok     no_table tree, overflow off, both Ok -> the same result
+     minwrap_routes_flat, minwrap_routes_both_ok
+   Not proved / remarks:
+     - A: pieces of an entry may be EMPTY lines only when the very first character of an entry
+       is wider than the renderer (fl_chars then flushes the empty line collected so far); in
+       render_tree an entry starts with "[" (width 1), so for width >= 1 this cannot happen; it
+       is not stated as a theorem.  The width clause is stated for o_wrap_links o = true only.
+     - B2 is stated for table-free trees; with tables the estimates decide the column widths
+       (mw_table_differs), which is the documented effect of the option. *)
